@@ -89,3 +89,22 @@ static bool maps_equal(const OP2Utility::Map& a, const OP2Utility::Map& b, bool 
   }
   return true;
 }
+
+// Independent encoder of the map format from the logical fields (no library serialisation code): returns the length.
+static unsigned ref_encode_map(const OP2Utility::Map& m, uint32_t lgWidth, uint8_t* o) {
+  using namespace OP2Utility;
+  unsigned p = 0;
+  auto w32 = [&](uint32_t v) { vf_st32(o + p, v); p += 4; };
+  w32(m.GetVersionTag()); w32(m.IsSavedGame() ? 1 : 0); w32(lgWidth); w32(m.HeightInTiles()); w32((uint32_t)m.tilesetSources.size());
+  if (m.tiles.size()) memcpy(o + p, m.tiles.data(), m.tiles.size() * 4); p += (unsigned)m.tiles.size() * 4;
+  memcpy(o + p, &m.clipRect, 16); p += 16;
+  for (auto& t : m.tilesetSources) { w32((uint32_t)t.tilesetFilename.size()); memcpy(o + p, t.tilesetFilename.data(), t.tilesetFilename.size()); p += (unsigned)t.tilesetFilename.size(); if (t.tilesetFilename.size()) w32(t.numTiles); }
+  memcpy(o + p, "TILE SET\x1a", 10); p += 10;
+  w32((uint32_t)m.tileMappings.size()); if (m.tileMappings.size()) memcpy(o + p, m.tileMappings.data(), m.tileMappings.size() * 8); p += (unsigned)m.tileMappings.size() * 8;
+  w32((uint32_t)m.terrainTypes.size()); if (m.terrainTypes.size()) memcpy(o + p, m.terrainTypes.data(), m.terrainTypes.size() * 264); p += (unsigned)m.terrainTypes.size() * 264;
+  w32(m.GetVersionTag()); w32(m.GetVersionTag());
+  w32((uint32_t)m.tileGroups.size()); w32(m.tileGroups.empty() ? 0 : (uint32_t)m.tileGroups.size() - 1);
+  for (auto& g : m.tileGroups) { w32(g.tileWidth); w32(g.tileHeight); if (g.mappingIndices.size()) memcpy(o + p, g.mappingIndices.data(), g.mappingIndices.size() * 4); p += (unsigned)g.mappingIndices.size() * 4;
+    w32((uint32_t)g.name.size()); memcpy(o + p, g.name.data(), g.name.size()); p += (unsigned)g.name.size(); }
+  return p;
+}
